@@ -271,45 +271,20 @@ static void c03_hom_case(Ctx & c, const std::vector<double> & c1, const std::vec
 
 static void c04_case(Ctx & c, const std::vector<double> & av, bool inv_ok)
 {
+  // one event per tangent vector: all first-order exp-Jacobians (the oracle shares its series)
   const Tan a = to_tan(av);
-  {
-    const TMap J = smooth::dr_exp<G>(a);
-    auto e       = c.ev("dr_exp");
-    e.vec("a", a).mat("out", J);
-    c.sink.emit(e);
-  }
-  {
-    const TMap J = smooth::dl_exp<G>(a);
-    auto e       = c.ev("dl_exp");
-    e.vec("a", a).mat("out", J);
-    c.sink.emit(e);
-  }
+  auto e      = c.ev("c04");
+  e.vec("a", a).num("inv", inv_ok ? 1 : 0);
+  e.mat("dr_exp", smooth::dr_exp<G>(a));
+  e.mat("dl_exp", smooth::dl_exp<G>(a));
   if (inv_ok) {
-    {
-      const TMap J = smooth::dr_expinv<G>(a);
-      auto e       = c.ev("dr_expinv");
-      e.vec("a", a).mat("out", J);
-      c.sink.emit(e);
-    }
-    {
-      const TMap J = smooth::dl_expinv<G>(a);
-      auto e       = c.ev("dl_expinv");
-      e.vec("a", a).mat("out", J);
-      c.sink.emit(e);
-    }
-    {
-      const TMap J = smooth::dr_rminus<G>(a);
-      auto e       = c.ev("dr_rminus");
-      e.vec("a", a).mat("out", J);
-      c.sink.emit(e);
-    }
-    {
-      const Eigen::Matrix<S, 1, DOF> J = smooth::dr_rminus_squarednorm<G>(a);
-      auto e                           = c.ev("dr_rminus_sqn");
-      e.vec("a", a).mat("out", J);
-      c.sink.emit(e);
-    }
+    e.mat("dr_expinv", smooth::dr_expinv<G>(a));
+    e.mat("dl_expinv", smooth::dl_expinv<G>(a));
+    e.mat("dr_rminus", smooth::dr_rminus<G>(a));
+    const Eigen::Matrix<S, 1, DOF> J = smooth::dr_rminus_squarednorm<G>(a);
+    e.mat("dr_rminus_sqn", J);
   }
+  c.sink.emit(e);
 }
 
 static void c04_action_case(Ctx & c, const std::vector<double> & cv)
@@ -330,46 +305,24 @@ static void c04_action_case(Ctx & c, const std::vector<double> & cv)
 static void c05_case(Ctx & c, const std::vector<double> & av, bool inv_ok)
 {
   if constexpr (Dsc::HasHess) {
-  const Tan a = to_tan(av);
-  {
-    const Hess H = smooth::d2r_exp<G>(a);
-    auto e       = c.ev("d2r_exp");
-    e.vec("a", a).mat("out", H);
-    c.sink.emit(e);
-  }
-  {
-    const Hess H = smooth::d2l_exp<G>(a);
-    auto e       = c.ev("d2l_exp");
-    e.vec("a", a).mat("out", H);
-    c.sink.emit(e);
-  }
-  if (inv_ok) {
-    {
-      const Hess H = smooth::d2r_expinv<G>(a);
-      auto e       = c.ev("d2r_expinv");
-      e.vec("a", a).mat("out", H);
-      c.sink.emit(e);
-    }
-    {
-      const Hess H = smooth::d2l_expinv<G>(a);
-      auto e       = c.ev("d2l_expinv");
-      e.vec("a", a).mat("out", H);
-      c.sink.emit(e);
-    }
-    {
-      const Hess H = smooth::d2r_rminus<G>(a);
-      auto e       = c.ev("d2r_rminus");
-      e.vec("a", a).mat("out", H);
-      c.sink.emit(e);
-    }
-    {
+    const Tan a = to_tan(av);
+    auto e      = c.ev("c05");
+    e.vec("a", a).num("inv", inv_ok ? 1 : 0);
+    e.mat("d2r_exp", smooth::d2r_exp<G>(a));
+    e.mat("d2l_exp", smooth::d2l_exp<G>(a));
+    if (inv_ok) {
+      e.mat("d2r_expinv", smooth::d2r_expinv<G>(a));
+      e.mat("d2l_expinv", smooth::d2l_expinv<G>(a));
+      e.mat("d2r_rminus", smooth::d2r_rminus<G>(a));
       const TMap H = smooth::d2r_rminus_squarednorm<G>(a);
-      auto e       = c.ev("d2r_rminus_sqn");
-      e.vec("a", a).mat("out", H);
-      c.sink.emit(e);
+      e.mat("d2r_rminus_sqn", H);
     }
+    c.sink.emit(e);
+  } else {
+    (void)c;
+    (void)av;
+    (void)inv_ok;
   }
-  } else { (void)c; (void)av; (void)inv_ok; }
 }
 
 // ------------------------------------------------------------------ driver
@@ -460,7 +413,7 @@ static int main_(int argc, char ** argv)
       c02_exp_case(c, gen.tangent(c.rng, st, static_cast<int>(i / kNumThetaStrata) % 3, static_cast<int>(i / (3 * kNumThetaStrata)) % 4));
     }
     // log-uniform sweep 1e-12 .. 1e-2, ppd points per decade
-    const int ppd = n >= 400 ? 40 : 10;
+    const int ppd = n >= 400 ? 40 : 5;
     for (int k = 0; k <= 10 * ppd; ++k) {
       const double th = std::pow(10.0, -12.0 + static_cast<double>(k) / ppd);
       c02_exp_case(c, gen.tangent_theta(c.rng, th, 1 + (k % 2), k % 4));
@@ -501,7 +454,7 @@ static int main_(int argc, char ** argv)
         c04_case(c, av, inv_ok);
       }
     }
-    const int ppd = second ? (n >= 200 ? 10 : 3) : (n >= 400 ? 40 : 10);
+    const int ppd = second ? (n >= 200 ? 10 : 2) : (n >= 400 ? 40 : 5);
     for (int k = 0; k <= 10 * ppd; ++k) {
       const double th = std::pow(10.0, -12.0 + static_cast<double>(k) / ppd);
       auto av         = gen.tangent_theta(c.rng, th, 1 + (k % 2), k % 4);
